@@ -23,6 +23,17 @@ for kind, label in (("selftest_abort", "CRASH"), ("selftest_hang", "HANG")):
         assert got[pos] == [label], (kind, pos, got[pos])
         assert all(got[i] == ref[i] for i in range(3000) if i != pos), (kind, pos)
         print("%s at %d of 3000 attributed correctly (%.1fs)" % (label, pos, time.time() - t))
+# a death that depends on what the same process ran before (not reproducible on the program alone) is attributed to the program, with
+# the sequence that reproduces it
+p2 = list(progs)
+p2[2000] = "selftest_abort_after 1200"
+t = time.time()
+got = ex.run_many(p2)
+assert got[2000] == ["CRASH"], got[2000]
+assert all(got[i] == ref[i] for i in range(3000) if i != 2000)
+seq = execpool.SEQ_CRASH.get(p2[2000])
+assert seq and seq[-1] == p2[2000] and len(seq) >= 1201, (seq and len(seq))
+print("history-dependent death at 2000 of 3000 attributed correctly, sequence of %d programs (%.1fs)" % (len(seq), time.time() - t))
 # slow programs are not mistaken for hangs
 got = ex.run_many(["selftest_sleep 1500"] * 3 + ["hash sha256 p:5:0:3"])
 assert got[:3] == [["-"]] * 3 and got[3] == ref[3], got
